@@ -381,6 +381,80 @@ theorem entry_points_reach_state_new :
      "Expression::eval", "Environment::render_str", "Environment::render_named_str", "Environment::empty_state"].all
       (reaches MJ.Gen.fuelEntryCalls "State::new" 8) = true := by decide
 
+/-! ## the out-of-fuel error on its way to the caller -/
+
+/-- WRAPPERS PRESERVE OUT-OF-FUEL.  However deep the activation in which the tank ran empty is
+    nested, and whatever frames the error passes on its way up — propagation (`?`) or a wrapper
+    that keeps the original as `source()` (include: `BadInclude`, parent block: `EvalBlock`) — the
+    error the caller of `render` receives still has `OutOfFuel` as its root cause, and the kinds
+    around it are exactly the kinds of the wrapping frames.  A frame that *replaces* the error
+    (new `Error` from the text of the old one) destroys this — that is the hypothesis tied to the
+    sources by `error_consumers_keep_source`. -/
+theorem wrappers_preserve_out_of_fuel (hs : List Handler) (e : RErr) (h : ∀ x ∈ hs, x.keepsSource = true) :
+    (passThrough hs e).rootIsOutOfFuel = e.rootIsOutOfFuel := by
+  induction hs generalizing e with
+  | nil => rfl
+  | cons x rest ih =>
+    have hx := h x (by simp)
+    have hr : ∀ y ∈ rest, y.keepsSource = true := fun y hy => h y (by simp [hy])
+    simp only [passThrough, List.foldl_cons]
+    have := ih (x.apply e) hr
+    simp only [passThrough] at this
+    rw [this]
+    cases x with
+    | propagate => rfl
+    | wrapKeepingSource k => rfl
+    | replace k => simp [Handler.keepsSource] at hx
+
+example : (passThrough [.propagate, .wrapKeepingSource "BadInclude", .propagate, .wrapKeepingSource "EvalBlock"] .outOfFuel).rootIsOutOfFuel = true
+    ∧ (passThrough [.propagate, .wrapKeepingSource "BadInclude", .propagate, .wrapKeepingSource "EvalBlock"] .outOfFuel).wrapperKinds = ["EvalBlock", "BadInclude"]
+    ∧ (passThrough [.propagate, .replace "InvalidOperation", .wrapKeepingSource "EvalBlock"] .outOfFuel).rootIsOutOfFuel = false := by decide
+
+/-- the only wrappers that appear around the root cause are those the frames put there -/
+theorem wrapper_kinds_come_from_frames (hs : List Handler) (e : RErr) (h : ∀ x ∈ hs, x.keepsSource = true) :
+    (passThrough hs e).wrapperKinds =
+      (hs.filterMap fun x => match x with | .wrapKeepingSource k => some k | _ => none).reverse ++ e.wrapperKinds := by
+  induction hs generalizing e with
+  | nil => simp [passThrough]
+  | cons x rest ih =>
+    have hx := h x (by simp)
+    have hr : ∀ y ∈ rest, y.keepsSource = true := fun y hy => h y (by simp [hy])
+    simp only [passThrough, List.foldl_cons]
+    have := ih (x.apply e) hr
+    simp only [passThrough] at this
+    rw [this]
+    cases x with
+    | propagate => simp [Handler.apply]
+    | wrapKeepingSource k => simp [Handler.apply, RErr.wrapperKinds]
+    | replace k => simp [Handler.keepsSource] at hx
+
+example : (passThrough [.wrapKeepingSource "BadInclude", .wrapKeepingSource "BadInclude"] .outOfFuel).wrapperKinds = ["BadInclude", "BadInclude"] := by decide
+
+/-- WHO CONSUMES AN ERROR OF A NESTED EVALUATION.  Table regenerated from `minijinja/src/**`
+    (outside compiler/, vendor/): every `map_err(`, `.ok()`, `unwrap_or*`, `or_else(`, `is_err()`,
+    `if let Err(`, `Err(_)` and `Err(e) =>` whose consumed value comes from a call that receives the
+    `State`, starts an evaluation, or could not be resolved; with what happens to the original.
+    Every such site propagates the original, wraps it keeping it as `source()`, or (the two
+    `*_to_write` entry points) reports the writer's I/O error instead when the writer had failed —
+    except the listed rows, which are not errors of an evaluation at all:
+    * `macro_object.rs prepare_args var:kwargs` — an `Option<Kwargs>` out of a tuple pattern;
+      `.get("caller").ok()` is a map lookup on the macro's own keyword arguments;
+    * `vm/mod.rs eval_impl var:n` — the `Option<usize>` operand of `UnpackList(s)`.
+    (The remaining sites of the crate consume values of calls that do not get the `State`:
+    `MJ.Gen.fuelErrConsumersNoVm` of them.) -/
+def keepsOriginal (d : String) : Bool :=
+  d == "propagates original" || d == "wraps, original kept as source" ||
+  d == "io error of the writer takes precedence, else original"
+
+def notAnEvaluationError : List (String × String × String) :=
+  [("vm/macro_object.rs", "prepare_args", "var:kwargs"), ("vm/mod.rs", "eval_impl", "var:n")]
+
+theorem error_consumers_keep_source :
+    MJ.Gen.fuelErrConsumers.all (fun r =>
+      keepsOriginal r.2.2.2.2.2 || notAnEvaluationError.contains (r.1, r.2.1, r.2.2.1)) = true ∧
+    (MJ.Gen.fuelErrConsumers.filter (fun r => r.2.2.2.2.2 == "wraps, original kept as source")).map (fun r => r.2.1)
+      = ["perform_include", "perform_super"] := by decide
+
 /-! ## source ties for the hypotheses of the machine model -/
 
 /-- WHO TOUCHES THE TRACKER.  Every occurrence of `fuel_tracker`, `FuelTracker`, `fuel_levels`,
